@@ -287,9 +287,9 @@ def run(tier, rep):
     c13.l1(rep, 4, c13.UNIV_A)
     c13.l2(rep, pa, 3 if quick else 4, c13.UNIV_A, concretes=c13.CONCRETE[:1])
     traces = []
-    n = 45 if quick else 600
+    n = 45 if quick else 250
     for _ in range(n):
-        traces.append(session(pa, rng, 25 if quick else 40))
+        traces.append(session(pa, rng, 25 if quick else 35))
     for i in range(0, len(traces), 150):
         part = traces[i:i + 150]
         res, verdicts = contmodel.validate(part, 5, label="TraceContinuum sessions", workers=16)
